@@ -273,7 +273,28 @@ def self_test_optimal_partitioning():
 
 SELF_TESTS = [self_test_optimal_partitioning]
 
+
+def small_l2_cases(tier):
+    """Every data vector over {-1,0,1} (ties everywhere) x msl x penalty, for all admissible small n."""
+    import itertools
+
+    nmax = 7 if tier == "quick" else 9
+    for msl in (1, 2, 3):
+        for n in range(2 * msl, nmax + 1):
+            for k in (0, 1, 2.5):
+                for x in itertools.product((-1, 0, 1), repeat=n):
+                    if x[0] > 0 or (x[0] == 0 and next((v for v in x if v != 0), -1) > 0):
+                        continue  # the L2 objective is invariant under x -> -x: one representative
+                    yield {"n": n, "msl": msl, "family": "l2int", "k": k, "x": list(x), "int_output": False}
+
+
 FACETS = [
+    Facet(
+        name="exhaustive_ternary_l2", kind="enumerate", enumerate=small_l2_cases, check=check_table, exhaustive=True,
+        rule=("every data vector over {-1,0,1}^n (one per sign class) for n in [2msl, 7] (thorough: 9), msl in {1,2,3}, penalties "
+              "{0,1,2.5}, squared-error table cost: exhaustive; non-trivial = optimum has >=1 changepoint and pruning observed"),
+        shards_quick=16, shards_thorough=16, max_samples=1,
+    ),
     Facet(
         name="table_costs",
         check=check_table,
